@@ -27,6 +27,14 @@ type c08exp struct {
 	want ref.Status
 }
 
+type c08wrong struct {
+	accept, neighbour int
+	op                *plan.Op
+	res               *plan.Res
+	kind              string
+	want              ref.Status
+}
+
 func checkC08(e *Env) {
 	drv := e.BuildDrv(false)
 	var mu sync.Mutex
@@ -37,6 +45,7 @@ func checkC08(e *Env) {
 	kinds := newCounter()
 	smp := newSamples(6)
 	dist := newDistinct()
+	wrongByWord := map[[2]int]*c08wrong{}
 
 	stats := e.RunStream(StreamOpts{Drv: drv}, func(emit func(*Item)) {
 		for lang := 0; lang < ref.NLang; lang++ {
@@ -127,11 +136,29 @@ func checkC08(e *Env) {
 			}
 			mu.Unlock()
 			if accepted != (x.want == ref.OK) {
-				what := fmt.Sprintf("%s list: a valid sentence containing word %d (%s) is rejected with %q: validation does not map the word back to index %d", ref.Names[x.lang], x.idx, preview(golden), errText(r.Err), x.idx)
-				if x.kind == "neighbour" {
-					what = fmt.Sprintf("%s list: with word %d replaced by its neighbour %d the reference verdict is %q but CheckMnemonic says %s: validation maps a word to the wrong index", ref.Names[x.lang], x.idx, x.idx^1, x.want, accWord(accepted))
+				if x.kind == "accept" && errClassOf(r.Err) == "other" {
+					e.Violate(&Violation{What: fmt.Sprintf("%s list: a sentence of 24 list words with a correct checksum is rejected with %q: validation does not know a list word", ref.Names[x.lang], errText(r.Err)),
+						Ops: []plan.Op{it.Op}, Expected: ref.OK.String(), Observed: r})
+					return
 				}
-				e.Violate(&Violation{What: what, Ops: []plan.Op{it.Op}, Expected: x.want.String(), Observed: r})
+				// judged per word after the run: see below
+				mu.Lock()
+				k := [2]int{x.lang, x.idx}
+				wv := wrongByWord[k]
+				if wv == nil {
+					wv = &c08wrong{}
+					wrongByWord[k] = wv
+				}
+				if x.kind == "accept" {
+					wv.accept++
+				} else {
+					wv.neighbour++
+				}
+				if wv.op == nil || x.kind == "accept" {
+					op, rr := it.Op, *r
+					wv.op, wv.res, wv.kind, wv.want = &op, &rr, x.kind, x.want
+				}
+				mu.Unlock()
 				return
 			}
 			if x.kind == "accept" {
@@ -198,7 +225,8 @@ func checkC08(e *Env) {
 	})
 
 	// the concurrent flavour of this monitor (C12 is the full treatment)
-	concCalls := e.concurrentSmoke(drv, "C08", e.smokePool("C08", "chk"), e.pick(4, 12), e.pick(200, 1000), e.smokeValidAccepted())
+	ambiguousConc := newCounter()
+	concCalls := e.concurrentSmoke(drv, "C08", append(e.smokePool("C08", "chk"), e.smokePool("C08", "enc")...), e.pick(4, 12), e.pick(200, 1000), e.smokeListWords(ambiguousConc))
 
 	// The reverse map (word -> index) is observed through validation verdicts. If validation is
 	// wrong for a large share of ALL sentences of a language, the cause is not a few list entries
@@ -207,6 +235,25 @@ func checkC08(e *Env) {
 	for lang := 0; lang < ref.NLang; lang++ {
 		if verdicts[lang] > 0 && wrongVerdicts[lang]*4 > verdicts[lang] {
 			fatalInconclusive("C08: validation gives the wrong verdict for %d of %d crafted %s sentences: the word->index map cannot be observed through it (see C02/C03)", wrongVerdicts[lang], verdicts[lang], ref.Names[lang])
+		}
+	}
+	// A word whose reverse mapping is wrong makes (nearly) every valid sentence containing it
+	// fail, and a word mapped onto its neighbour's index makes (nearly) every neighbour sentence
+	// pass. One or two wrong verdicts out of four crafted sentences are not explained by the
+	// word: they are validation failures of some other kind (C02/C03) and are only counted.
+	unexplained := 0
+	for k, wv := range wrongByWord {
+		lang, idx := k[0], k[1]
+		golden := e.Model.List[lang][idx]
+		switch {
+		case wv.accept >= 3:
+			e.Violate(&Violation{What: fmt.Sprintf("%s list: %d of 4 valid sentences containing word %d (%s) at different positions are rejected (%q): validation does not map the word back to index %d", ref.Names[lang], wv.accept, idx, preview(golden), errText(wv.res.Err), idx),
+				Ops: []plan.Op{*wv.op}, Expected: ref.OK.String(), Observed: wv.res})
+		case wv.neighbour >= 3:
+			e.Violate(&Violation{What: fmt.Sprintf("%s list: with word %d replaced by its neighbour %d, %d of 4 sentences get a verdict other than the reference decoder's (%q expected, CheckMnemonic says %q): validation maps a word to the wrong index", ref.Names[lang], idx, idx^1, wv.neighbour, wv.want, errText(wv.res.Err)),
+				Ops: []plan.Op{*wv.op}, Expected: wv.want.String(), Observed: wv.res})
+		default:
+			unexplained += wv.accept + wv.neighbour
 		}
 	}
 	// well-formedness of what the API emitted
@@ -289,7 +336,8 @@ func checkC08(e *Env) {
 		"list_entries_possible":             ref.NLang * 2048,
 		"observations_by_kind":              kinds.Map(),
 		"min_accepting_sentences_per_word":  minAcc,
-		"source_literals_compared":          srcChecked,
+		"wrong_validation_verdicts_not_explained_by_a_word":                 unexplained,
+		"source_literals_compared":                                          srcChecked,
 		"list_entries_observed_again_after_a_history_of_failed_validations": afterHistory,
 		"children": stats.Children,
 	}, []string{
